@@ -228,4 +228,73 @@ theorem vogpPremise_spec (membB : ρ → Vec → Bool) (K : Nat) (dom cov pess :
 theorem Ball.wfB_iff (m : Nat) (b : Ball) : b.wfB m = true ↔ b.c.length = m ∧ 0 < b.a := by
   simp [Ball.wfB]
 
+/-! ### invariance of the core under a transformation of the regions (translation twins) -/
+
+theorem refresh_map (T : ρ → ρ) (A : List Nat) (f o : Nat → ρ) :
+    refresh A (fun i => T (f i)) (fun i => T (o i)) = fun i => T (refresh A f o i) := by
+  funext i
+  simp only [refresh]
+  split <;> rfl
+
+/-- **Twin runs of the core.**  Let `T` transform regions (e.g. translate them by a common vector) and
+let the two oracle functions be invariant under `T` on the regions that occur (`ok`: e.g. "of
+dimension `m`").  Then the core run on the transformed regions visits exactly the same `(S, P, U)`, and
+its region table is the transformed table. -/
+theorem pavebaCore_map (T : ρ → ρ) (ok : ρ → Prop) (dom cov : ρ → ρ → Bool)
+    (hd : ∀ a b, ok a → ok b → dom (T a) (T b) = dom a b)
+    (hc : ∀ a b, ok a → ok b → cov (T a) (T b) = cov a b)
+    (K : Nat) (init : Nat → ρ) (fresh : Nat → Nat → ρ)
+    (hinit : ∀ i, ok (init i)) (hfresh : ∀ r i, ok (fresh r i)) : ∀ t,
+    (pavebaCore K dom cov (fun i => T (init i)) (fun r i => T (fresh r i)) t).S =
+      (pavebaCore K dom cov init fresh t).S ∧
+    (pavebaCore K dom cov (fun i => T (init i)) (fun r i => T (fresh r i)) t).P =
+      (pavebaCore K dom cov init fresh t).P ∧
+    (pavebaCore K dom cov (fun i => T (init i)) (fun r i => T (fresh r i)) t).U =
+      (pavebaCore K dom cov init fresh t).U ∧
+    (pavebaCore K dom cov (fun i => T (init i)) (fun r i => T (fresh r i)) t).reg =
+      (fun i => T ((pavebaCore K dom cov init fresh t).reg i)) ∧
+    ∀ i, ok ((pavebaCore K dom cov init fresh t).reg i) := by
+  intro t
+  induction t with
+  | zero => exact ⟨rfl, rfl, rfl, rfl, hinit⟩
+  | succ t ih =>
+    obtain ⟨hS, hP, hU, hR, hok⟩ := ih
+    have hok' : ∀ i, ok (refresh (Steps.union (pavebaCore K dom cov init fresh t).S
+        (pavebaCore K dom cov init fresh t).U) (fresh t) (pavebaCore K dom cov init fresh t).reg i) := by
+      intro i
+      simp only [refresh]
+      split
+      · exact hfresh t i
+      · exact hok i
+    have hreg : refresh (Steps.union (pavebaCore K dom cov init fresh t).S
+          (pavebaCore K dom cov init fresh t).U) (fun i => T (fresh t i))
+          (fun i => T ((pavebaCore K dom cov init fresh t).reg i)) =
+        fun i => T (refresh (Steps.union (pavebaCore K dom cov init fresh t).S
+          (pavebaCore K dom cov init fresh t).U) (fresh t) (pavebaCore K dom cov init fresh t).reg i) :=
+      refresh_map T _ _ _
+    have hrd : ∀ (f : ρ → ρ → Bool), (∀ a b, ok a → ok b → f (T a) (T b) = f a b) →
+        relOf f (fun i => T (refresh (Steps.union (pavebaCore K dom cov init fresh t).S
+          (pavebaCore K dom cov init fresh t).U) (fresh t) (pavebaCore K dom cov init fresh t).reg i)) =
+        relOf f (refresh (Steps.union (pavebaCore K dom cov init fresh t).S
+          (pavebaCore K dom cov init fresh t).U) (fresh t) (pavebaCore K dom cov init fresh t).reg) := by
+      intro f hf
+      funext i j
+      exact hf _ _ (hok' i) (hok' j)
+    simp only [pavebaCore, pavebaStep, hS, hP, hU, hR, hreg, hrd dom hd, hrd cov hc]
+    exact ⟨trivial, trivial, trivial, trivial, hok'⟩
+
+/-- the same for VOGP / ε-PAL (three oracle functions, no table) -/
+theorem vogpCore_map (T : ρ → ρ) (ok : ρ → Prop) (dom cov pess : ρ → ρ → Bool)
+    (hd : ∀ a b, ok a → ok b → dom (T a) (T b) = dom a b)
+    (hc : ∀ a b, ok a → ok b → cov (T a) (T b) = cov a b)
+    (hp : ∀ a b, ok a → ok b → pess (T a) (T b) = pess a b)
+    (K : Nat) (fresh : Nat → Nat → ρ) (hfresh : ∀ r i, ok (fresh r i)) :
+    vogpCore K dom cov pess (fun r i => T (fresh r i)) = vogpCore K dom cov pess fresh := by
+  have e : ∀ (f : ρ → ρ → Bool), (∀ a b, ok a → ok b → f (T a) (T b) = f a b) →
+      (fun k => relOf f (fun i => T (fresh k i))) = fun k => relOf f (fresh k) := by
+    intro f hf
+    funext k i j
+    exact hf _ _ (hfresh k i) (hfresh k j)
+  simp only [vogpCore, e dom hd, e cov hc, e pess hp]
+
 end VOPy.Core
